@@ -61,7 +61,7 @@ def iso_links(tier):
 
 
 LINKDEV = {"reverse", "closed", "cv", "K5", "D100", "D600", "C60", "C140", "L50", "L2000", "hpump1", "hpump2", "hpump3",
-           "ppump", "valve", "piecewise", "hyd15all", "small", "near_max", "near_min", "elev_high", "pdd"}
+           "ppump", "valve", "piecewise", "hyd15all", "small", "near_max", "near_min", "elev_high", "pdd", "revorder"}
 
 
 def cases(tier):
